@@ -948,6 +948,9 @@ def wcs_specs(tier):
                                     'sip': False})
     sip = [{'proj': 'TAN', 'rot': 30.0, 'cdelt': 1e-4, 'ctype': 'RA/DEC', 'crval': [266.0, -29.0], 'sip': True},
            {'proj': 'TAN', 'rot': 0.0, 'cdelt': 0.01, 'ctype': 'RA/DEC', 'crval': [40.0, 20.0], 'sip': True}]
+    # distortion by lookup tables (CPDIS) instead of SIP polynomials
+    lookup = [{'proj': 'TAN', 'rot': 30.0, 'cdelt': 1e-4, 'ctype': 'RA/DEC', 'crval': [40.0, 20.0], 'sip': False, 'lookup': True}]
+    sip = sip + lookup
     if tier == 'quick':
         def pick(**kw):
             return [w for w in lin if all(w[k] == v for k, v in kw.items())][0]
@@ -957,7 +960,7 @@ def wcs_specs(tier):
                 # latitude on the first pixel axis
                 pick(proj='TAN', rot=137.0, cdelt=1e-4, ctype='DEC/RA', crval=[40.0, 20.0]),
                 pick(proj='SIN', rot=30.0, cdelt=0.01, ctype='GLAT/GLON', crval=[266.0, -29.0]),
-                sip[0]]
+                sip[0], lookup[0]]
     return lin + sip
 
 
@@ -987,6 +990,13 @@ def build_wcs(spec):
         a[2, 0], a[1, 1], a[0, 2] = 1e-4, -5e-5, 7.5e-5
         b[2, 0], b[1, 1], b[0, 2] = -5e-5, 5e-5, 1e-4
         w.sip = Sip(a, b, None, None, [50.0, 60.0])
+    if spec.get('lookup'):
+        from astropy.wcs import DistortionLookupTable
+        yy, xx = np.mgrid[0:9, 0:9]
+        t1 = (0.4 * np.sin(xx / 3.0) * np.cos(yy / 4.0)).astype(np.float32)
+        t2 = (0.3 * np.cos(xx / 5.0 + 1.0) * np.sin(yy / 3.0 + 0.5)).astype(np.float32)
+        w.cpdis1 = DistortionLookupTable(t1, (1.0, 1.0), (1.0, 1.0), (16.0, 16.0))
+        w.cpdis2 = DistortionLookupTable(t2, (1.0, 1.0), (1.0, 1.0), (16.0, 16.0))
     w.wcs.set()
     _WCS_CACHE[key] = w
     return w
@@ -1024,7 +1034,7 @@ def check_wcs(res, ctx, wspecs, origins, modes):
     for ws in wspecs:
         w = build_wcs(ws)
         for m in modes:
-            ptol = 1e-3 if (ws['sip'] and m == 'all') else 1e-8
+            ptol = 1e-3 if ((ws['sip'] or ws.get('lookup')) and m == 'all') else 1e-8
             for o in origins:
                 case = ctx.case('wcs', wcs=ws, origin=o, mode=m)
                 res.evaluations += 1
@@ -1157,7 +1167,7 @@ def run_shard(shard, tier, seed):
                 ctx = Ctx({'sx': sx, 'sy': sy, 'kind': kind})
                 check_wcs(res, ctx, W, [0, 1], ['all', 'wcs'])
                 for ws in W:
-                    res.axis('wcs_proj', ws['proj'] + ('-SIP' if ws['sip'] else ''))
+                    res.axis('wcs_proj', ws['proj'] + ('-SIP' if ws['sip'] else '') + ('-CPDIS' if ws.get('lookup') else ''))
         elif shard['kind'] == 'sep_extreme':
             check_sep_extreme(res)
         else:
